@@ -16,7 +16,7 @@ structure NodeRec where
   updatable : Bool
   nel : Nat
   eqc : Nat
-  idk : Nat
+  akey : Nat
   txt : Nat
   lay : Nat
   deriving Inhabited
@@ -42,7 +42,7 @@ def jTree (j : Json) : Except String Tree := do
   return { root := root, size := nodes.length + 1
            cls := fun i => (get i).cls, ty := fun i => (get i).ty, parent := fun i => (get i).parent,
            kids := fun i => (get i).kids, ignored := fun i => (get i).ignored, updatable := fun i => (get i).updatable,
-           nel := fun i => (get i).nel, eqc := fun i => (get i).eqc, idk := fun i => (get i).idk,
+           nel := fun i => (get i).nel, eqc := fun i => (get i).eqc, akey := fun i => (get i).akey,
            txt := fun i => (get i).txt, lay := fun i => (get i).lay }
 
 def jPair (j : Json) : Except String (Nat × Nat) := do
@@ -114,6 +114,7 @@ def handle (line : String) : Except String String := do
   let P : Params := { f := fj, t := tj, hi := SqlglotModel.Generated.C20.thrHi,
                       lo := SqlglotModel.Generated.C20.thrLo, minLeaves := SqlglotModel.Generated.C20.minLeaves,
                       cmpIdents := SqlglotModel.Generated.C20.comparesIgnoredLeaves,
+                      identsAsDict := SqlglotModel.Generated.C20.ignoredLeavesAsDict,
                       countPre := SqlglotModel.Generated.C20.countsPrematchedLeaves }
   let r := diffTrees P S T dice pre deltaOnly
   return "M " ++ " ".intercalate (sortStrs (r.matching.map showPair)) ++ " | E " ++
